@@ -149,10 +149,10 @@ theorem instances_independent (e₁ : O₁) (e₂ : O₂) (p₁ : σ₁ → I₁
     cases c with
     | inl f =>
       obtain ⟨h1, h2⟩ := ih (p₁ s₁ f).1 s₂
-      simp [runMixed, runFrames, h1, h2]
+      simp [runMixed, runFrames, h1, h2, List.filterMap_cons]
     | inr f =>
       obtain ⟨h1, h2⟩ := ih s₁ (p₂ s₂ f).1
-      simp [runMixed, runFrames, h1, h2]
+      simp [runMixed, runFrames, h1, h2, List.filterMap_cons]
 
 end independence
 
@@ -702,6 +702,64 @@ theorem rs_split (c : Rs α) (a b : Array α) (hc : RsInv c) (ha : a.size % c.de
     simp only [Rs.process, h, rate_process_ok s a ha, Except.bind, Except.map,
       rate_process_ok { s with d := hand s.d a } b hb]
 
+theorem rs_inv_step (c : Rs α) (a : Array α) (r : Rs α × Array α) (hc : RsInv c) (ha : a.size % c.decimRate = 0)
+    (hr : c.process a = .ok r) : RsInv r.1 ∧ r.1.decimRate = c.decimRate := by
+  cases c with
+  | bypass => simp only [Rs.process] at hr; cases hr; exact ⟨trivial, rfl⟩
+  | dec s =>
+    simp only [Rs.process, decim_process_ok s a ha, Except.map] at hr
+    cases hr
+    exact ⟨⟨hc.1, by simp only [size_hand]; exact hc.2⟩, rfl⟩
+  | int s =>
+    simp only [Rs.process] at hr
+    cases hr
+    exact ⟨interp_inv_step s a hc, rfl⟩
+  | rc s =>
+    simp only [Rs.process, rate_process_ok s a ha, Except.map] at hr
+    cases hr
+    exact ⟨⟨hc.1, by simp only [size_hand]; exact hc.2.1, hc.2.2⟩, rfl⟩
+
+theorem rs_nil (c : Rs α) (hc : RsInv c) : c.process #[] = .ok (c, #[]) := by
+  cases c with
+  | bypass => rfl
+  | dec s =>
+    simp only [Rs.process, decim_process_ok s #[] (by simp), Except.map]
+    simp [hand_empty, decimOut, tabF_zero]
+  | int s => simp only [Rs.process, interp_nil]
+  | rc s =>
+    simp only [Rs.process, rate_process_ok s #[] (by simp), Except.map]
+    simp [hand_empty, rateOut, tabF_zero]
+
+/-- the constructor `FIRResampler(out_fs, in_fs, h)` yields a reachable state (`in_fs ≥ 1`) -/
+theorem rs_init_inv (outFs inFs : Nat) (h : Array α) (hq : 0 < inFs) : RsInv (Rs.init outFs inFs h) := by
+  unfold Rs.init
+  simp only []
+  split
+  · trivial
+  · split
+    · rename_i h2
+      exact decim_init_inv _ h (by omega)
+    · split
+      · exact interp_init_inv _ h
+      · refine rate_init_inv _ _ h ?_
+        show 0 < (simplify outFs inFs).2
+        unfold simplify
+        exact Nat.div_pos (Nat.le_of_dvd hq (Nat.gcd_dvd_right _ _)) (Nat.gcd_pos_of_pos_right _ hq)
+
+/-- **T06 FIRResampler, every framing** into frames of `k · decim_rate()` samples (bypass, decimator, interpolator or
+rate converter, whichever the constructor selected). -/
+theorem rs_framing (c : Rs α) (hc : RsInv c) (frames : List (Array α)) (hfr : ∀ f ∈ frames, f.size % c.decimRate = 0) :
+    runFramesE #[] Rs.process c frames = c.process (concat #[] frames) := by
+  refine framing_invariant_except #[] #[] Rs.process (fun s => RsInv s ∧ s.decimRate = c.decimRate)
+    (fun x => x.size % c.decimRate = 0) ?_ (by simp) ?_ ?_ ?_ c ⟨hc, rfl⟩ frames hfr
+  · rintro s ⟨hs, _⟩; exact rs_nil s hs
+  · intro a b ha hb; simp [Array.size_append, Nat.add_mod, ha, hb]
+  · rintro s a r ⟨hs, hm⟩ ha hr
+    obtain ⟨h1, h2⟩ := rs_inv_step s a r hs (by rw [hm]; exact ha) hr
+    exact ⟨h1, by rw [h2, hm]⟩
+  · rintro s a b ⟨hs, hm⟩ ha hb
+    exact rs_split s a b hs (by rw [hm]; exact ha) (by rw [hm]; exact hb)
+
 end resample
 
 /-! ## T06.k — MedianFilter, LMS / NLMS, RLS (from the owners' theorems) -/
@@ -842,7 +900,7 @@ theorem tuner_framing (p : Tuner α) (ph : Nat) (frames : List (Array (Cx α))) 
     (fun s a b _ _ _ => tuner_split p s a b) ph trivial frames (fun _ _ => trivial)).1
 
 /-- the two output arrays (`gain`, `out`) of the dynamics processors, concatenated component-wise -/
-instance : Append (Array α × Array α) := ⟨fun p q => (p.1 ++ q.1, p.2 ++ q.2)⟩
+scoped instance instAppendArrayPair {A B : Type} : Append (Array A × Array B) := ⟨fun p q => (p.1 ++ q.1, p.2 ++ q.2)⟩
 
 /-- **T06 Compressor / Limiter, every framing.** -/
 theorem processWith_framing (stp : α → α → Step α) (gs : α) (frames : List (Array α)) :
@@ -864,6 +922,13 @@ theorem agcR_framing (p : Agc α) (s : AgcState α) (frames : List (Array α)) :
   (framing_invariant #[] (#[], #[]) (Agc.processR p) (fun _ => True) (fun _ => True)
     (fun s _ => by simp [Agc.processR]) trivial (fun _ _ _ _ => trivial) (fun _ _ _ _ => trivial)
     (fun s a b _ _ _ => agcR_split p s a b) s trivial frames (fun _ _ => trivial)).1
+
+/-- **T06 Agc (complex), every framing.** -/
+theorem agcC_framing (p : Agc α) (s : AgcState α) (frames : List (Array (Cx α))) :
+    runFrames (#[], #[]) (Agc.processC p) s frames = Agc.processC p s (concat #[] frames) :=
+  (framing_invariant #[] (#[], #[]) (Agc.processC p) (fun _ => True) (fun _ => True)
+    (fun s _ => by simp [Agc.processC]) trivial (fun _ _ _ _ => trivial) (fun _ _ _ _ => trivial)
+    (fun s a b _ _ _ => agcC_split p s a b) s trivial frames (fun _ _ => trivial)).1
 
 end foldframings
 
